@@ -913,6 +913,13 @@ def computeMacroscopicGroupConstants(
             single=True,
         )
 
+    if macroGroupConstants is None:
+        # nothing contributed (no nuclides, or only zero number densities): the sum is zero
+        if libType == "gammaXS" or constantName == "gammaHeating":
+            macroGroupConstants = np.zeros(lib.numGroupsGamma)
+        else:
+            macroGroupConstants = np.zeros(lib.numGroups)
+
     return macroGroupConstants
 
 
